@@ -83,7 +83,13 @@ def _fold_const_operation(
                 val = lhs.value.data / rhs.value.data
         case _:
             return
-    return arith.ConstantOp(builtin.FloatAttr(val, lhs.type))
+    try:
+        attr = builtin.FloatAttr(val, lhs.type)
+    except OverflowError:
+        # the exact result is finite but too large for the (narrower) type: it rounds
+        # to an infinity
+        attr = builtin.FloatAttr(math.copysign(float("inf"), val), lhs.type)
+    return arith.ConstantOp(attr)
 
 
 class FoldConstConstOp(RewritePattern):
